@@ -74,6 +74,12 @@ def get_strategy_base():
                  None if self.hp is None else tuple(sorted((k, C.fnum(v)) for k, v in self.hp.items())),
                  extra)
             c.count('hooks')
+            # the aggregated views a strategy may consult in any hook (also outside its own execution cycle, i.e. inside
+            # fill hooks): reading them is part of the workload - a value memoised at such a moment must not be served later
+            try:
+                c.ev('views', self._sim_route, C.fnum(self.portfolio_value), C.fnum(self.balance), C.fnum(self.available_margin))
+            except Exception as e:
+                c.ev('views', self._sim_route, 'raised', type(e).__name__)
             if c.scratch.get('observe_env'):
                 # everything that could carry state from an earlier session of the same process (C11)
                 try:
